@@ -26,6 +26,9 @@ RULE = ('one case = (number of streams 1-3, device script per stream: 1-4 WRTE p
         'W<i>) held 150 ms at a (function, line, hit) reached in a discovery run while the '
         'other threads proceed; stress = seeded yield injection with switch interval 10 us; '
         'device = every merge order of the device messages of two streams for a small script; '
+        'close = a thread calling stream.close() is held at each line of its path while a '
+        'reader thread takes the device\'s own CLSE for that stream off the wire (exactly one '
+        'CLSE from the host); '
         'fault = the device withholds the OKAY of host WRTE chunk 0-2 (never / until the '
         'retries returned / for half the write time-out) while the host retries 1-3 writes, '
         'optionally with a second writer thread and a reader thread on the same stream; '
@@ -39,7 +42,8 @@ ASSUMPTIONS = [
 ]
 REQUIRED_COUNTERS = ['scenarios_run', 'streams_judged', 'device_wrte_judged',
                      'acks_judged', 'host_chunks_judged', 'schedules_held',
-                     'fault_runs', 'outstanding_checked', 'writes_refused_or_failed']
+                     'fault_runs', 'outstanding_checked', 'writes_refused_or_failed',
+                     'close_races']
 EXHAUSTIVE = {'quick': False, 'thorough': False}
 PLAN = {
     'quick': {'workers': 16, 'budget_s': 60, 'sampled_per_worker': 40,
@@ -91,6 +95,9 @@ def enumerated(tier):
   b = ['B0', 'B1', 'Bc']
   for order in _merges(a, b):
     yield {'k': 'device', 'order': order}
+  # a local close() racing with the device's CLSE for the same stream
+  for idx in range(80):
+    yield {'k': 'close', 'idx': idx}
   # the device withholds one OKAY; the host retries (flow control under faults)
   n = 0
   for withhold in (0, 1, 2):
@@ -551,6 +558,97 @@ def run_fault(case):
   return {'sig': case, 'violations': viol[:4], 'counters': c}
 
 
+_CLOSE_POINTS = []
+
+
+def run_close(case):
+  """A local close() races with the device's own CLSE for the same stream: one
+  thread (W0) calls stream.close() and is held at a line of its path while a
+  reader thread (R0) takes the device's CLSE off the wire.  The device must see
+  exactly one CLSE from the host for that stream."""
+  ap, exc, eng = _S['ap'], _S['exc'], _S['engine']
+
+  def scenario(target):
+    dev = Device({'svc:0': ['0.0:hello']}, {'svc:0': 10 ** 9})
+    conn = ap.AdbConnection.connect(dev.t, timeout_ms=TIMEOUT_MS)
+    st = conn.open_stream('svc:0', timeout_ms=TIMEOUT_MS)
+    got, errs = [], []
+
+    def reader():
+      try:
+        for d in st.read_until_close(timeout_ms=1500):
+          got.append(d)
+      except Exception as e:  # pylint: disable=broad-except
+        errs.append(('R0', type(e).__name__))
+
+    def closer():
+      try:
+        st.close(timeout_ms=1500)
+      except Exception as e:  # pylint: disable=broad-except
+        errs.append(('W0', type(e).__name__))
+
+    sd = next(iter(dev.streams.values()))
+    eng.arm(target)
+    eng.enabled = True
+    info = {'reached': False}
+    try:
+      tw = threading.Thread(target=closer, name='W0')
+      tr = threading.Thread(target=reader, name='R0')
+      tw.start()
+      if target is not None:
+        def device_closes_and_reader_reads():
+          dev.t.feed('CLSE', sd['remote'], sd['local'], '')
+          tr.start()
+          tr.join(5)
+        a = eng.run_action_at_pause(device_closes_and_reader_reads, wait_s=4,
+                                    hold_s=0.3)
+        info['reached'] = a['reached']
+        if a.get('_thread'):
+          a['_thread'].join(6)
+      tw.join(6)
+      if not tr.ident:
+        dev.t.feed('CLSE', sd['remote'], sd['local'], '')
+        tr.start()
+      tr.join(6)
+      info['hung'] = [t.name for t in (tw, tr) if t.is_alive()]
+    finally:
+      eng.release()
+      eng.enabled = False
+    info['seen'] = dict(eng.seen)
+    try:
+      conn.close()
+    except Exception:  # pylint: disable=broad-except
+      pass
+    return dev, sd, got, errs, info
+
+  if not _CLOSE_POINTS:
+    _, _, _, _, info = scenario(None)
+    for key, n in sorted(info['seen'].items()):
+      if key[0] == 'W0':
+        for h in range(1, min(n, 2) + 1):
+          _CLOSE_POINTS.append((key, h))
+  if case['idx'] >= len(_CLOSE_POINTS):
+    return {'sig': None, 'violations': [], 'counters': {}, 'evaluations': 0,
+            'sample': False}
+  target = _CLOSE_POINTS[case['idx']]
+  dev, sd, got, errs, info = scenario(target)
+  viol = []
+  ctx = {'closer_held_at': [list(target[0]), target[1]], 'errors': errs[:3]}
+  if info.get('hung'):
+    viol.append({'mechanism': 'host-thread-never-returned',
+                 'detail': dict(ctx, threads=info['hung'])})
+  if sd['closed_by_host'] != 1:
+    viol.append({'mechanism': 'host-CLSE-count-%d' % sd['closed_by_host'],
+                 'detail': dict(ctx, scenario='close-race')})
+  for p in dev.problems:
+    viol.append({'mechanism': 'device-saw:' + p[0].replace(' ', '-'),
+                 'detail': dict(ctx, problem=p)})
+  c = {'close_races': 1 if info['reached'] else 0,
+       'pause_not_reached': 0 if info['reached'] else 1, 'scenarios_run': 1}
+  return {'sig': ['close', list(target[0]), target[1]], 'violations': viol[:4],
+          'counters': c}
+
+
 def run_case(case):
   return {'sched': run_sched, 'stress': run_stress, 'device': run_device,
-          'fault': run_fault}[case['k']](case)
+          'fault': run_fault, 'close': run_close}[case['k']](case)
